@@ -17,7 +17,7 @@ def run_pipeline(ctx, cases, chunk=60):
         return {"Text": c["Text"], "Weight": bool(c.get("Weight")), "Repeat": int(c.get("Repeat", 1)),
                 "Solve": bool(c.get("Solve")), "Assemble": bool(c.get("Assemble")),
                 "Error": c.get("Error", ""), "Order": c.get("Order", ""), "ScratchDir": scratch or ctx.work,
-                "ViaPre": bool(c.get("ViaPre")), "WriteBack": bool(c.get("WriteBack")), "ParseOnly": bool(c.get("ParseOnly")),
+                "ViaPre": bool(c.get("ViaPre")), "Restage": int(c.get("Restage") or 0), "Reassemble": bool(c.get("Reassemble")), "WriteBack": bool(c.get("WriteBack")), "ParseOnly": bool(c.get("ParseOnly")),
                 "Repo": C.REPO, "Templates": bool(c.get("Templates"))}
     outs = [None] * len(cases)
     shared = [k for k, c in enumerate(cases) if not c.get("Isolate")]
@@ -33,7 +33,7 @@ def run_pipeline(ctx, cases, chunk=60):
                 d = os.path.join(ctx.work, "iso_%d" % k)
                 os.makedirs(d, exist_ok=True)
                 try:
-                    return C.dump("pipeline", [payload(cases[k], d)], timeout=1800)[0]
+                    return C.dump("pipeline", [payload(cases[k], d)], timeout=1800, env={"GOMAXPROCS": str(cases[k]["Procs"])} if cases[k].get("Procs") else None)[0]
                 finally:
                     import shutil
                     shutil.rmtree(d, ignore_errors=True)
